@@ -3,8 +3,10 @@ package c14
 
 import (
 	"fmt"
+	"strconv"
 
 	"github.com/EliCDavis/polyform/formats/ply"
+	"github.com/EliCDavis/polyform/formats/pts"
 	"github.com/EliCDavis/polyform/formats/splat"
 	"github.com/EliCDavis/polyform/formats/stl"
 	"github.com/EliCDavis/polyform/modeling"
@@ -110,4 +112,92 @@ func ZZ_C14_Splat() {
 		}
 	}
 	zz.Reach("read")
+}
+
+// ASCII PLY: the cut position ranges over every cell boundary - every byte of the (concrete) header and every
+// token / separator of the body (numbers are opaque tokens). Without an error the reader must return the
+// complete, correct mesh (only trailing framing was cut).
+func plyASCIITrunc(points bool) {
+	var m modeling.Mesh
+	V := 1 + zz.Choose("V", zz.Bound("V"))
+	pos := make([]vector3.Float64, V)
+	for i := range pos {
+		pos[i] = vector3.New(float64(zz.Float32(fmt.Sprintf("pos[%d].x", i))), float64(zz.Float32(fmt.Sprintf("pos[%d].y", i))), float64(zz.Float32(fmt.Sprintf("pos[%d].z", i))))
+	}
+	if points {
+		m = modeling.NewPointCloud(nil, map[string][]vector3.Float64{modeling.PositionAttribute: pos}, nil, nil, nil)
+	} else {
+		T := 1 + zz.Choose("T", zz.Bound("T"))
+		idx := make([]int, 3*T)
+		for i := range idx {
+			idx[i] = zz.Int(fmt.Sprintf("idx[%d]", i), 0, V-1)
+		}
+		m = modeling.NewTriangleMesh(idx).SetFloat3Attribute(modeling.PositionAttribute, pos)
+	}
+	buf := zz.NewBuf()
+	err := ply.Write(buf, m, ply.ASCII)
+	zz.Assume(err == nil)
+	hr := buf.Reader(-1)
+	_, herr := ply.ReadHeader(hr)
+	zz.Assume(herr == nil)
+	header := hr.R // header bytes (= cells)
+	cells := zz.CellCount(buf, header)
+	cut := zz.Int("cut", 0, cells-1)
+	zz.Reach("file")
+	back, err := ply.ReadMesh(buf.ReaderAtCell(cut, header))
+	zz.Reach("read")
+	if err != nil {
+		return
+	}
+	zz.Assert(back.AttributeLength() == V && back.PrimitiveCount() == m.PrimitiveCount(), "a truncated ascii PLY was accepted with missing or extra elements")
+	if back.AttributeLength() != V || !back.HasFloat3Attribute(modeling.PositionAttribute) {
+		return
+	}
+	bp := back.Float3Attribute(modeling.PositionAttribute)
+	for i := 0; i < V; i++ {
+		zz.Assert(bp.At(i).X() == pos[i].X() && bp.At(i).Y() == pos[i].Y() && bp.At(i).Z() == pos[i].Z(), "a truncated ascii PLY returned a placeholder vertex for data that was not in the prefix")
+	}
+	if !points && back.PrimitiveCount() == m.PrimitiveCount() {
+		bi, mi := back.Indices(), m.Indices()
+		for i := 0; i < mi.Len(); i++ {
+			zz.Assert(bi.At(i) == mi.At(i), "a truncated ascii PLY returned a face that was not in the prefix")
+		}
+	}
+}
+
+func ZZ_C14_PlyASCIIPoints()    { plyASCIITrunc(true) }
+func ZZ_C14_PlyASCIITriangles() { plyASCIITrunc(false) }
+
+// PTS: "<count>\n" then one "x y z" line per point
+func ZZ_C14_Pts() {
+	n := 1 + zz.Choose("n", zz.Bound("N"))
+	buf := zz.NewBuf()
+	buf.WriteString(fmt.Sprintf("%d\n", n))
+	pos := make([][3]float64, n)
+	for i := 0; i < n; i++ {
+		for c := 0; c < 3; c++ {
+			pos[i][c] = zz.Float64(fmt.Sprintf("p%d.%d", i, c))
+			if c > 0 {
+				buf.WriteString(" ")
+			}
+			buf.B = strconv.AppendFloat(buf.B, pos[i][c], 'f', -1, 64)
+		}
+		buf.WriteString("\n")
+	}
+	cells := zz.CellCount(buf, 2)
+	cut := zz.Int("cut", 0, cells-1)
+	zz.Reach("file")
+	back, err := pts.ReadPointCloud(buf.ReaderAtCell(cut, 2))
+	zz.Reach("read")
+	if err != nil {
+		return
+	}
+	zz.Assert(back.AttributeLength() == n, "a truncated PTS file was accepted with a different number of points")
+	if back.AttributeLength() != n {
+		return
+	}
+	bp := back.Float3Attribute(modeling.PositionAttribute)
+	for i := 0; i < n; i++ {
+		zz.Assert(bp.At(i).X() == pos[i][0] && bp.At(i).Y() == pos[i][1] && bp.At(i).Z() == pos[i][2], "a truncated PTS file returned a placeholder point for a line that was not in the prefix")
+	}
 }
